@@ -1,5 +1,5 @@
-\* The strict (S) invariants: the code violates each of them (see notes/push_model.md, findings). TLC stops at the first violated
-\* invariant: keep ONE INVARIANT line at a time to see each counterexample (bin: /verif/.work/push/tr.py did that while building).
+\* The strict (S) invariants the code (after the repairs of P1 / P2 / P3 / P6 / P9) still violates (see notes/push_model.md, findings). TLC stops at the first violated
+\* invariant: keep ONE INVARIANT line at a time to see each counterexample.
 SPECIFICATION MCSpec
 VIEW View
 CONSTANTS
@@ -11,6 +11,7 @@ CONSTANTS
   ResetMax = 1
   ErrorResetMax = 1
   LazyClient = FALSE
+  OldPushBugs = FALSE
   OldIdleCheck = FALSE
   NPeer = 2
   NAppX = 1
